@@ -46,6 +46,15 @@ CONFIGS = {
         ('N3-DS', dict(N=3, Kinds={"ea", "eb", "c", "p", "t"}, RootCfg="R1", Axes=set(AXES),
                        Tests={"node()", "*", "comment()"}, Preds={"1"},
                        ParenPreds=set(), Preds2=set(), DocSibs=True, NsTests=set())),
+        # XPath 2.0 kind tests, processing-instruction with a target, 3.0 braced URI literals
+        ('N3-KT', dict(N=3, Kinds={"ea", "eb", "en", "t", "p", "xa", "xn"}, RootCfg="R1",
+                       Axes={"self", "child", "attribute", "parent", "ancestor-or-self", "descendant", "descendant-or-self",
+                             "following", "preceding-sibling"},
+                       Tests={"node()", "element()", "element(*)", "element(a)", "element(p:a)", "attribute()", "attribute(*)",
+                              "attribute(a)", "document-node()", "document-node(element(a))", "processing-instruction('p')",
+                              "processing-instruction(p)", "processing-instruction(zz)", "Q{urn:x}a", "Q{urn:x}*", "Q{}a",
+                              "namespace-node()"},
+                       Preds=set(), ParenPreds=set(), Preds2=set(), DocSibs=False, NsTests=set())),
         # steps with TWO predicates: the second numbers the survivors of the first along the axis
         ('N3-P2', dict(N=3, Kinds={"ea", "eb", "t"}, RootCfg="R1",
                        Axes={"child", "descendant", "ancestor", "ancestor-or-self", "preceding", "preceding-sibling",
@@ -96,6 +105,20 @@ XML_NS = 'http://www.w3.org/XML/1998/namespace'
 NS_URI = dict(NS, xml=XML_NS)
 
 
+V2_MARKS = ('*:', 'element(', 'attribute(', 'document-node(', 'processing-instruction(p', 'processing-instruction(z')
+V3_MARKS = ('Q{', 'namespace-node(')
+
+
+def min_version(text: str) -> str:
+    """Lowest XPath version whose grammar has every node test of `text` (kind tests with arguments and *:name
+    are 2.0, braced URI literals and namespace-node() 3.0; processing-instruction('lit') is already 1.0)."""
+    if any(m in text for m in V3_MARKS):
+        return '3.0'
+    if any(m in text for m in V2_MARKS):
+        return '2.0'
+    return '1.0'
+
+
 def step_text(action: str, args: tuple) -> str:
     if action == 'NsStep':
         return f'namespace::{args[0]}'
@@ -118,9 +141,13 @@ def abbreviations(action: str, args: tuple) -> list[str]:
     pred = f'[{args[2]}]' if action.endswith('Pred') else ''
     out = []
     if ax == 'child':
-        out.append(f'{t}{pred}')
+        # the default axis of an omitted axis is attribute for attribute(...) tests and namespace for namespace-node()
+        if not t.startswith(('attribute(', 'namespace-node(')):
+            out.append(f'{t}{pred}')
     elif ax == 'attribute':
         out.append(f'@{t}{pred}')
+        if t.startswith('attribute('):
+            out.append(f'{t}{pred}')
     elif ax == 'parent' and t == 'node()' and not pred:
         out.append('..')      # '..[p]' is not XPath 1.0 (AbbreviatedStep takes no predicates)
     elif ax == 'self' and t == 'node()' and not pred:
@@ -321,7 +348,8 @@ def tree_worker(job):
                 # second oracle: libxml2 (not for fragments: a parentless root has no libxml2 counterpart;
                 # lxml evaluates relative paths of a tree from the root element, so only absolute texts in R1;
                 # lxml cannot return the document node)
-                xp1 = '*:' not in text     # the wildcard-prefix name test is XPath 2.0+
+                minv = min_version(text)
+                xp1 = minv == '1.0'     # *:name and the kind tests with arguments are XPath 2.0+, Q{uri}name 3.0+
                 # libxml2's preceding axis stops at doc->children (it assumes the first child of the document is
                 # the document element), so with comments/PIs AFTER the document element it loses the element
                 # itself: `//preceding::*` on <a/><!--c--> is empty.  Not used as oracle for that axis there.
@@ -333,7 +361,7 @@ def tree_worker(job):
                         oracle_disagreements.append(dict(tree=[parent, kind], root=root_cfg, path=text,
                                                          spec=expected, libxml2=lres))
                 for v in versions:
-                    if v == '1.0' and not xp1:
+                    if v < minv:
                         continue
                     for lib in libs:
                         if modes_all:
@@ -575,6 +603,9 @@ def run(chk: core.Check) -> None:
     total_unreached = 0
     all_oracle = 0
     cfgs = CONFIGS[chk.tier]
+    only = os.environ.get('C01_ONLY')       # development aid: run a subset of the configurations
+    if only:
+        cfgs = [c for c in cfgs if c[0] in only.split(',')]
     chk.coverage['configs'] = [dict(name=n, **{k: (sorted(v) if isinstance(v, set) else v) for k, v in c.items()}) for n, c in cfgs]
     for name, consts in cfgs:
         wd = os.path.join(chk.scratch, name)
@@ -624,7 +655,8 @@ def run(chk: core.Check) -> None:
                             chk.known_hits[idx] = chk.known_hits.get(idx, 0) + cnt - 1
                             break
         print(f'  {name}: trees={len(trees)} states={r.distinct} edges={n_edges} tlc={r.wall_s:.1f}s replay={time.time()-t0:.1f}s', flush=True)
-    run_traces(chk)
+    if not only:
+        run_traces(chk)
     chk.coverage['unreached_states'] = total_unreached
     chk.coverage['exhaustive'] = True
     chk.coverage['rule'] = ('every transition of the TLC state graph of Paths is one case; non-trivial = target node set has '
